@@ -264,19 +264,22 @@ Fixpoint for_pop (line : nat) (stk : list forcall) : option forcall * list forca
   end.
 Definition for_push (e : forcall) (f : flow) : flow := set_forstk (e :: f_forstk f) f.
 
+(* the `let call_info = match pop_call_info_for_line(..., false) { ... }` block of ForInCommand::run *)
+Definition for_call_info (P : list instr) (line : nat) (f : flow) : option forcall * flow :=
+  let (found, stk) := for_pop_top line (f_forstk f) in
+  let f0 := set_forstk stk f in
+  match found with
+  | Some ci => (Some ci, f0)
+  | None => match for_meta_info P line f0 with
+            | (Some m, f1) => (Some (mkFC 0 m), f1)
+            | (None, f1) => (None, f1)
+            end
+  end.
+
 Definition step_for (P : list instr) (line : nat) (x hv : str) (s : state) : cres * state :=
   let (w, f) := s in
   let handle := vval hv w in                      (* the arguments are bound before the command runs *)
-  let (found, stk) := for_pop_top line (f_forstk f) in
-  let f0 := set_forstk stk f in
-  let r := match found with
-           | Some ci => (Some ci, f0)
-           | None => match for_meta_info P line f0 with
-                     | (Some m, f1) => (Some (mkFC 0 m), f1)
-                     | (None, f1) => (None, f1)
-                     end
-           end in
-  match r with
+  match for_call_info P line f with
   | (None, f1) => (RCrash 1, (w, f1))
   | (Some ci, f1) =>
     match get_next_iteration (fc_iter ci) handle w with
